@@ -183,7 +183,9 @@ def run(ctx, mod):
            "obligation_names": res["theorems"],
            "checker_cmd": f"cd /verif/coq && coq_makefile -f _CoqProject -o Makefile && make " + " ".join(f"Properties/{n}.vo" for n in [prop] + extra_files) + "   (coqc 8.16.1, full .vo build; regenerated Gen/*.v first)",
            "obligations_per_file": res.get("files"),
-           "trusted_base": list(getattr(mod, "TRUSTED", [])) + ["axioms reported by Print Assumptions in this run: " + json.dumps(res["axioms"])],
+           "trusted_base": list(getattr(mod, "TRUSTED", [])) + ([("source-tie translators " + ", ".join(g for g in getattr(mod, "GEN", [])) +
+                                                                    " with their runtime files (the meaning of the accepted Python/numpy constructs): "
+                                                                    + getattr(mod, "SOURCE_TIE_NOTE"))] if getattr(mod, "SOURCE_TIE_NOTE", None) else []) + ["axioms reported by Print Assumptions in this run: " + json.dumps(res["axioms"])],
            "axioms_per_theorem": res["axioms"],
            "generated_from_source": getattr(mod, "GEN", []),
            "broken": [b["what"] for b in broken],
